@@ -3,14 +3,15 @@
 From PdV.Corr Require Export Read C01.
 From PdV.Model Require Export WriteXl.
 
-(* numeric cells compare by value (a float 3.0 comes back from the workbook as int 3) *)
+(* numeric cells compare by value (a float 3.0 comes back from the workbook as int 3, -0.0 as 0) *)
+Definition fnorm (f : ftok) : ftok := if N.eqb f negzero_tok then zero_tok else f.
 Definition xcell_eqv (a b : cell) : bool :=
   match a, b with
   | CStr x, CStr y => str_eqb x y
   | CNone, CNone => true
   | CNone, CStr [] => true       (* an empty string is stored as an empty cell *)
   | CStr [], CNone => true
-  | CInt _ f _, CInt _ g _ | CInt _ f _, CFloat g _ | CFloat f _, CInt _ g _ | CFloat f _, CFloat g _ => N.eqb f g
+  | CInt _ f _, CInt _ g _ | CInt _ f _, CFloat g _ | CFloat f _, CInt _ g _ | CFloat f _, CFloat g _ => N.eqb (fnorm f) (fnorm g)
   | CBool x, CBool y => Bool.eqb x y
   | CDate x _, CDate y _ => Z.eqb x y
   | _, _ => false
